@@ -12,30 +12,37 @@ Refuse): it then gets the hand model as a placeholder and the check falls back t
 
 Grammar (everything else is refused)
   function     def f(<exactly the parameters of FUNCS, with exactly the defaults listed there>): no decorators
-  statements   docstring | pass | x = e | a, b = e1, e2 | l[i] = e | l[i] op= e | x op= e  (op in + - *)
+  statements   docstring | pass | x = e | a, b = e1, e2 | l[i] = e | l[i] op= e | d[key] op= e | x op= e  (op in + - *)
                | l.sort(key=K[, reverse=True/False]) | l.append(e) | l.extend(e)     (l a list the function created)
+               | d[key].append(e) (d a defaultdict(list) the function created) | l[-1].append(e) | l[-1].extend(e) (l a list
+                 of lists the function created)
                | x.fitness.crowding_dist = e | f(args) for a translated function f without result
                | if c: ... [elif/else]  (c a comparison / and / or / not: no truthiness of lists or numbers)
-               | for <targets> in <iterable>: ... (no else, no break) | continue | while c: ... (FUNCS gives the fuel)
+               | for <targets> in <iterable>: ... (no else, no break) | continue (in a for)
+               | while c: ... (FUNCS gives the fuel; no break / continue; running out of fuel is an exception)
                | raise <Name>(<message>) | return | return e   (not inside a loop)
   iterables    range(n) | enumerate(it) | zip(it, it[, it]) | a list-valued expression
-               (a list the loop body modifies may only be iterated through a slice copy)
+               (a list / dictionary the loop body modifies may only be iterated through a slice copy)
   expressions  names, 0.0, float("inf"), non-negative int literals, negated int literals, 'standard' / 'log' only
-               in `nd == '...'`; x.fitness.values, x.fitness.crowding_dist, x.fitness; t[0] t[1] ... on tuples;
-               l[i] l[-c] l[a:b] on lists; (e1, e2[, e3]); [e] * n; [e for <targets> in <iterable>] (effect-free e);
-               + - * / typed as in the table ARITH below, float(v) only as n * float(v); == != < <= > >= on
-               integers, == != < > on values, < > on distances, == != on fitnesses; not / and / or;
-               len min max; list(chain(*e)); list(e); sorted(e, key=K[, reverse=...]);
-               K = lambda x: <expression> | attrgetter("fitness.crowding_dist");
+               in `nd == '...'`; x.fitness.values, x.fitness.crowding_dist, x.fitness (a dictionary key); t[0] t[1] ... on
+               tuples; l[i] l[-c] l[a:b] on lists; d[key] on defaultdicts; (e1, e2[, e3]); [e] * n; [] ; [[]];
+               [e for <targets> in <iterable>] (effect-free e); + - * / typed as in `arith`, float(v) only as n * float(v);
+               == != < <= > >= on integers, == != < > on values, < > on distances; not / and / or on booleans;
+               len min max; list(chain(*e)); list(e); list(d.keys()); sorted(e, key=K[, reverse=...]);
+               K = lambda x: <expression> | attrgetter("fitness.crowding_dist"); defaultdict(list) | defaultdict(int);
                sortNondominated(e, e) / sortLogNondominated(e, e) (parameters of the regenerated selNSGA2);
-               a.dominates(b) on fitnesses.
+               a.dominates(b) on fitnesses (property C01's subject: C04's nd_dom).
 Types        ind | V (objective value) | D (crowding distance) | nat (len, range, literals) | int (any integer) |
-             bool | nd | fit | list T | tuples | dict fit T (stage sortNondominated).
+             bool | nd | fit (the weighted-values tuple of a fitness: dictionary key) | list T | tuples | defaultdict fit -> T.
+             An empty list display has an unknown element type until its first append / extend (unification).
 Effects (subscripts, attribute reads/writes, calls) are sequenced in Python's evaluation order: operands left to
 right, the right-hand side before the target of an assignment, the old value of an augmented target first.
-Aliasing: a list the function mutates must be a fresh local (list display, comprehension, list(...), sorted(...),
-slice, [x]*n); its name may only be used as subscript / slice / len / iteration / method-call base and as the
-returned value, so no second reference to it can exist.
+Aliasing: a list / dictionary the function mutates must be a fresh local (list display, comprehension, list(...),
+sorted(...), slice, [x]*n, defaultdict(...)); its name may only be used as subscript / slice / len / iteration /
+method-call base and as the returned value, so no second reference to it can exist; `a = b ; b = <fresh>` is a move;
+`x = l[-1]` on a list of lists the function mutates is refused.  A defaultdict read inserts the key: reads are translated
+as pure lookups with the default, and list(d.keys()) is refused inside loops and once d may have been read; len(d),
+`in d`, iteration over d are outside the grammar.
 """
 import ast
 import os
